@@ -138,7 +138,7 @@ def extract_cases(tlc_out, dest, fam, start_id, extra_fields=None):
             if not m:
                 continue
             c = json.loads(json.loads(m.group(1))[5:])
-            if "bytes" in c or "toks" in c or c.get("mode") in ("date", "num"):
+            if "bytes" in c or "toks" in c or c.get("mode") in ("date", "num", "evalbytes"):
                 rec = dict(c, id=start_id + n, fam=fam)
             else:
                 rec = {"id": start_id + n, "fam": fam, "ast": c["ast"], "inp": c["inp"], "binds": fix_binds(c.get("binds", [])), "exp": c.get("exp")}
